@@ -1,17 +1,160 @@
-import TlxVerif.Model.C03Radix
+/-
+C03 — property theorems: every sequential string sorter of tlx yields a sorted permutation of the
+input objects and (LCP variants) the exact LCP array.
+
+Reading guide.  Objects are an arbitrary type `α` with `str : α → List UInt8`; `Sorted str out` is
+`List.Pairwise (str · ≤ str ·)` with Lean's lexicographic order on `List UInt8` (unsigned bytes);
+`out.Perm ss` is permutation of the *objects*; `adjLcps` lists `lcp (out[i-1]) (out[i])` for
+`i ≥ 1`, and the LCP claim is `result.2 = l.take 1 ++ adjLcps …`: entry 0 of the caller's array is
+untouched, every later entry is exact.  `Pre` = the documented preconditions (common prefix of
+length `depth`, NUL-free strings, LCP array as long as the string array).  Every theorem
+quantifies over all inputs, depths, memory limits and `sizeof` constants.
+-/
+import TlxVerif.Proofs.C03Mkqs
 namespace TlxVerif.C03
 
-theorem lcp_comm (a b : Str) : lcp a b = lcp b a := by
+variable {α : Type} (str : α → Str)
+
+/-! ## the specification is what the property says -/
+
+/-- `Sorted` really is "non-decreasing unsigned-byte lexicographic order" of neighbours and of
+all pairs -/
+theorem sorted_iff_neighbours (l : List α) :
+    Sorted str l ↔ ∀ i (h : i + 1 < l.length), str (l[i]'(by omega)) ≤ str l[i + 1] := by
+  unfold Sorted
+  constructor
+  · intro hp i h
+    exact List.pairwise_iff_getElem.mp hp i (i + 1) (by omega) h (by omega)
+  · intro hn
+    rw [List.pairwise_iff_getElem]
+    intro i j hi hj hij
+    induction j with
+    | zero => omega
+    | succ j ih =>
+      by_cases e : i = j
+      · subst e; exact hn i hj
+      · exact List.le_trans (ih (by omega) (by omega)) (hn j hj)
+
+/-- the entries of `adjLcps` are the pairwise LCPs of neighbours -/
+theorem adjLcps_getElem (xs : List Str) (i : Nat) (h : i + 1 < xs.length) :
+    (adjLcps xs)[i]? = some (lcp (xs[i]'(by omega)) xs[i + 1]) := by
+  induction xs generalizing i with
+  | nil => simp at h
+  | cons a as ih =>
+    cases as with
+    | nil => simp at h
+    | cons b bs =>
+      rw [adjLcps_cons_cons]
+      cases i with
+      | zero => simp
+      | succ i =>
+        simp only [List.getElem?_cons_succ, List.getElem_cons_succ]
+        exact ih i (by simpa using h)
+
+/-- `lcp` is the length of the longest common prefix: the strings agree on the first `lcp a b`
+bytes and differ (or one ends) right behind them -/
+theorem lcp_is_longest (a b : Str) :
+    a.take (lcp a b) = b.take (lcp a b) ∧
+      ¬ (lcp a b < a.length ∧ lcp a b < b.length ∧ a[lcp a b]? = b[lcp a b]?) := by
+  refine ⟨take_lcp a b, ?_⟩
   induction a generalizing b with
-  | nil => cases b <;> simp [lcp]
+  | nil => simp
   | cons x xs ih =>
     cases b with
-    | nil => simp [lcp]
+    | nil => simp
     | cons y ys =>
-      simp only [lcp]
-      by_cases h : x = y
-      · subst h; simp [ih]
-      · have h' : ¬ y = x := fun e => h e.symm
-        simp [h, h']
+      rw [lcp_cons_cons]
+      by_cases e : x = y
+      · subst e
+        have := ih ys
+        simpa using this
+      · simp [e]
+
+/-- the LCP claim spelled out per position: `lcp[i] = LCP(out[i-1], out[i])` for `i ≥ 1` -/
+theorem lcp_positions (out : List α) (l res : List Nat) (h : res = l.take 1 ++ adjLcps (out.map str))
+    (hl : l.length = out.length) (i : Nat) (hi : i + 1 < out.length) :
+    res[i + 1]? = some (lcp (str (out[i]'(by omega))) (str out[i + 1])) := by
+  subst h
+  have h1 : (l.take 1).length = 1 := by rw [List.length_take]; omega
+  rw [List.getElem?_append_right (by omega), h1]
+  have := adjLcps_getElem (out.map str) i (by simpa using hi)
+  simpa using this
+
+/-! ## insertion sort (insertion_sort.hpp) -/
+
+/-- C03/insertion_sort: both overloads, every input, every depth -/
+theorem insertion_sort_correct (wl : Bool) (d : Nat) (ss : List α) (l : List Nat)
+    (h : Pre str wl d ss l) : SortSpec str wl ss l (insertionSort str wl d ss l) :=
+  insertionSort_spec str wl d ss l h
+
+/-! ## the generic bucket step and the 8-bit radix step -/
+
+/-- C03/bucket step: sorted blocks in key order with exact inner LCPs and the right border
+entries concatenate to a sorted range with an exact LCP array -/
+theorem bucket_step (wl : Bool) (d : Nat) (tl : List (Blk α))
+    (hok : ∀ t ∈ tl, BlkOk str wl t)
+    (hcross : tl.Pairwise fun t1 t2 => ∀ x ∈ t1.b, ∀ y ∈ t2.b, str x ≤ str y ∧ lcp (str x) (str y) = d)
+    (hm : wl = true → HeadsMarked d false (tl.map fun t => t.b.length) (tl.map fun t => t.v)) :
+    SortSpec str wl (tl.flatMap fun t => t.b) (tl.flatMap fun t => t.v)
+      (tl.flatMap (fun t => t.r.1), tl.flatMap (fun t => t.r.2)) :=
+  blocks_spec str wl d tl hok hcross hm
+
+/-- C03/D23: the border loop (as fixed) stores `depth` exactly at the first entry of every
+non-empty bucket that has a non-empty predecessor, fills bucket 0, keeps entry 0 and the length —
+for every vector of bucket sizes, including "everything in bucket 0" -/
+theorem border_loop_correct (s0 : Nat) (rest : List Nat) (d : Nat) (l : List Nat)
+    (hl : l.length = (s0 :: rest).sum) :
+    ∃ tail, splitBy (s0 :: rest) (stepLcp8 (s0 :: rest) l.length d l)
+        = ((l.take s0).take 1 ++ List.replicate (s0 - 1) d) :: tail ∧
+      HeadsMarked d (decide (s0 ≠ 0)) rest tail ∧
+      (stepLcp8 (s0 :: rest) l.length d l).length = l.length ∧
+      (stepLcp8 (s0 :: rest) l.length d l).take 1 = l.take 1 :=
+  stepLcp8_chunks s0 rest d l hl
+
+/-! ## multikey quicksort and the out-of-place 8-bit radix sort -/
+
+/-- C03/multikey_quicksort, for every input, depth and memory limit — relative to the partition
+property of the transliterated Bentley–Sedgewick loop -/
+theorem multikey_quicksort_correct_partial (hP : PartitionOk str) (c : Consts) (wl : Bool)
+    (d : Nat) (ss : List α) (l : List Nat) (mem : Nat) (h : Pre str wl d ss l) :
+    SortSpec str wl ss l (multikeyQuicksort str c wl d ss l mem) :=
+  multikeyQuicksort_spec str hP c wl d ss l mem h
+
+/-- C03/radixsort_CE0 (count, prefix sum, stable distribution, recursion over the explicit stack,
+insertion-sort and memory-limit fall-backs), for every input, depth, memory limit and sizeof -/
+theorem radixsort_CE0_correct_partial (hP : PartitionOk str) (c : Consts) (wl : Bool)
+    (d : Nat) (ss : List α) (l : List Nat) (mem : Nat) (h : Pre str wl d ss l) :
+    SortSpec str wl ss l (radixsortCE0 str c wl d ss l mem) :=
+  radixsortCE0_spec str c wl (multikeyQuicksort_spec str hP c wl) d ss l mem h
+
+/-- the full statement for multikey quicksort -/
+def multikey_quicksort_correct_statement : Prop :=
+  ∀ (α : Type) (str : α → Str) (c : Consts) (wl : Bool) (d : Nat) (ss : List α) (l : List Nat) (mem : Nat),
+    Pre str wl d ss l → SortSpec str wl ss l (multikeyQuicksort str c wl d ss l mem)
+-- OPEN: multikey_quicksort_correct_statement — missing: `PartitionOk` for the array transliteration of the pivot selection + four-cursor partition loop + vec_swap (partition str); everything above it (recursion, LCP stores, memory fall-back, termination) is proved
+
+/-! ## non-vacuity -/
+
+section Examples
+
+def exStr : Nat × Str → Str := Prod.snd
+def exIn : List (Nat × Str) := [(0, [98, 97]), (1, [98]), (2, [98, 255, 1]), (3, [98]), (4, [98, 97, 1])]
+
+/-- a non-trivial instance satisfies the hypotheses (common prefix 1, NUL-free, 5 LCP entries) -/
+example : Pre exStr true 1 exIn [7, 7, 7, 7, 7] := by
+  refine ⟨?_, ?_, fun _ => rfl⟩
+  · intro a ha b hb
+    simp only [exIn, List.mem_cons, List.mem_nil_iff, or_false] at ha hb
+    rcases ha with rfl | rfl | rfl | rfl | rfl <;> rcases hb with rfl | rfl | rfl | rfl | rfl <;> decide
+  · intro a ha
+    simp only [exIn, List.mem_cons, List.mem_nil_iff, or_false] at ha
+    rcases ha with rfl | rfl | rfl | rfl | rfl <;> decide
+
+/-- and the model computes what the property demands on it -/
+example : insertionSort exStr true 1 exIn [7, 7, 7, 7, 7]
+    = ([(3, [98]), (1, [98]), (0, [98, 97]), (4, [98, 97, 1]), (2, [98, 255, 1])], [7, 1, 1, 2, 1]) := by
+  decide
+
+end Examples
 
 end TlxVerif.C03
